@@ -276,6 +276,54 @@ class Rec:
 
             self._try("R2[coll-writing+put+reading]", r2c, committed, session, {NEWKEY: NEWVAL}, cutc, case, must_have=(NEWKEY,))
             n += 1
+        # R4: ONE long-lived object runs the whole recovery history (the backend keeps its UKVFile and
+        # its cached index between sessions): append-open + put, read, append-open + put, read
+        self.path.write_bytes(img)
+
+        def r4():
+            h = UKVFile(self.path, mode="a")
+            try:
+                h.put(NEWKEY, NEWVAL)
+                h.close()
+                h.open("r")
+                first = {k: h.get(k) for k in list(h.keys())}
+                h.close()
+                h.open("a")
+                h.put(NEWKEY2, NEWVAL2)
+                h.close()
+                h.open("r")
+                out = {k: h.get(k) for k in list(h.keys())}
+                if any(first[k] != out.get(k) for k in first):
+                    out[b"<first-read-differs>"] = b""
+                return out
+            finally:
+                if not h.closed:
+                    h.close()
+
+        self._try("R4[one-handle:a+put,r,a+put,r]", r4, committed, session, {NEWKEY: NEWVAL, NEWKEY2: NEWVAL2}, cutc, case, must_have=(NEWKEY, NEWKEY2))
+        n += 1
+        if coll:
+            self.path.write_bytes(img)
+
+            def r4c():
+                c = Collection(self.path, UkvCollectionBackend, readonly=False)
+                try:
+                    with c.writing(timeout=1.0):
+                        c[NEWKEY.decode()] = NEWVAL
+                    with c.reading(timeout=1.0):
+                        first = {k.encode(): c[k] for k in sorted(c.keys())}
+                    with c.writing(timeout=1.0):
+                        c[NEWKEY2.decode()] = NEWVAL2
+                    with c.reading(timeout=1.0):
+                        out = {k.encode(): c[k] for k in sorted(c.keys())}
+                    if any(first[k] != out.get(k) for k in first):
+                        out[b"<first-read-differs>"] = b""
+                    return out
+                finally:
+                    _forget(c)
+
+            self._try("R4[one-collection:writing,reading,writing,reading]", r4c, committed, session, {NEWKEY: NEWVAL, NEWKEY2: NEWVAL2}, cutc, case, must_have=(NEWKEY, NEWKEY2))
+            n += 1
         # R3: the recovery append itself crashes at every byte; then R1 and R2 again
         if depth2 and ok2 and log2:
             for img2, pt2 in crashx.images(img, log2):
@@ -323,6 +371,10 @@ def case_list(ctx):
             cases.append((f0v, ("k2v300", "k1v1"), "coll:4", True))
     else:
         cases.append(("1rec", ("k2v300",), "ukv", False))
+        # a value beyond every buffer/threshold size also in the quick tier: all op-log invariants,
+        # every byte of the small writes, a stride inside the 70 kB write (thorough: every byte)
+        cases.append(("1rec", ("k1v1", "k1v70k", "k1v1"), "ukv", False))
+        cases.append(("hdr", ("k1v70k",), "coll:4", False))
     # deterministic rotation by the seed (order only)
     r = ctx.seed % len(cases)
     return cases[r:] + cases[:r]
@@ -346,6 +398,8 @@ def run_case(ctx, case):
     na = crashx.non_append_writes(ops)
     if na:
         ctx.violation("session:non-append-write", "a write of the append session did not land at the current end of file (in-place update or hole)", {"f0": f0v, "spec": list(spec), "via": via, "replay_kind": "session"})
+    if crashx.extending_truncates(ops):
+        ctx.violation("session:file-extended-before-write", "the append session grew the file with truncate() before writing the record: until the writes land the reserved region reads as zeros", {"f0": f0v, "spec": list(spec), "via": via, "replay_kind": "session"})
     if crashx.apply_ops(f0, ops, len(ops)) != final:
         raise HarnessError("recorded op log does not reproduce the final file: the recorder missed a mutation")
     recs, _, clean = parse_ukv(final)
@@ -354,7 +408,8 @@ def run_case(ctx, case):
         return
     rec = Rec(ctx, d / "rec")
     nimg = 0
-    for img, pt in crashx.images(f0, ops):
+    stride = None if ctx.thorough else 4096
+    for img, pt in crashx.images(f0, ops, stride_above=stride):
         cutc = cut_class(final, len(f0), len(img), pt, ops)
         cdesc = {"f0": f0v, "spec": list(spec), "via": via, "crash_point": list(pt), "depth2": depth2}
         n = rec.recover_all(img, committed, session, cutc, cdesc, depth2, coll=(len(final) < 2000))
@@ -386,7 +441,7 @@ def run(ctx):
         "max_puts_per_session": 3,
         "size_classes": sorted(set(c for case in cases for c in case[1])),
         "crash_depth": 2,
-        "every_byte_offset": True,
+        "every_byte_offset": True if ctx.thorough else "every byte of every write up to 4 KiB; inside longer writes (the 70 kB value) the first/last 64 cut positions and every 4099th (thorough: every byte)",
     }
     ctx.pmap(run_case, cases)
 
